@@ -15,6 +15,9 @@ Cat == <<
   [keys |-> {1, 2}, init |-> <<>>, prog |-> <<  <<O("los", 1, 10), O("los", 2, 12)>>, <<O("los", 2, 20), O("los", 1, 22)>>  >>],
   [keys |-> {1, 2}, init |-> <<>>, prog |-> <<  <<O("losf", 1, 10)>>, <<O("los", 1, 20), O("los", 2, 22)>>, <<O("length", 0, 0), O("length", 0, 0)>>  >>],
   [keys |-> {1},    init |-> <<O("store", 1, 4)>>, prog |-> <<  <<O("lad", 1, 0), O("los", 1, 10)>>, <<O("los", 1, 20)>>, <<O("los", 1, 30), O("load", 1, 0)>>  >>],
+  [keys |-> {1, 2}, init |-> <<O("store", 1, 5)>>, prog |-> <<  <<O("ladall", 0, 0), O("los", 1, 10)>>, <<O("store", 2, 20), O("copy", 0, 0)>>, <<O("los", 1, 30)>>  >>],
+  [keys |-> {1, 2}, init |-> <<O("store", 1, 5), O("store", 2, 6)>>, prog |-> <<  <<O("replacef", 1, 0), O("loadf", 1, 0)>>, <<O("los", 1, 20), O("range2", 0, 0)>>, <<O("ladf", 2, 0), O("storef", 2, 30)>>  >>],
+  [keys |-> {1},    init |-> <<>>, prog |-> <<  <<O("los", 1, 10), O("deletef", 1, 0)>>, <<O("replacef", 1, 20), O("ladall", 0, 0)>>, <<O("los", 1, 30), O("copy", 0, 0)>>  >>],
   \* ---- cache.Cache (odd element ids are expired) ----
   [keys |-> {1},    init |-> <<O("clos", 1, 1)>>, prog |-> <<  <<O("sweep", 0, 0)>>, <<O("clos", 1, 2), O("cload", 1, 0)>>  >>],
   [keys |-> {1, 2}, init |-> <<O("clos", 1, 1), O("clos", 2, 4)>>, prog |-> <<  <<O("sweep", 0, 0)>>, <<O("clos", 1, 2)>>, <<O("cload", 1, 0), O("cload", 2, 0)>>  >>],
